@@ -1,20 +1,29 @@
 //! C19 — pools exist only with in-bound parameters and over supported token mints.
-//! The table / function-level part lives in `c19_fn`; the instruction-sequence search is added here.
+//! The table / function-level part lives in `c19_fn` (mint admission over all extension subsets x badge states, setters over all
+//! u16, validate_constants cross product, end-to-end pool / reward creation); the instruction-sequence search in `c19_seq`.
 use crate::report::{Ctx, Report};
 use serde_json::Value;
 
 pub fn run(ctx: &Ctx) -> Report {
-    let mut r = Report::new("C19", "exploration");
+    let mut r = Report::new("C19", "model_checking");
     super::c19_fn::run_fn(ctx, &mut r);
     let ex = r.violations.is_empty();
-    r.set("exhaustive", ex && !ctx.tier.is_quick());
+    r.set("fn_tables_exhaustive", ex && !ctx.tier.is_quick());
+    r.set("exhaustive", false);
     r.set("rule", r.coverage.get("fn_rule").cloned().unwrap_or(Value::Null));
+    if r.violations.is_empty() {
+        super::c19_seq::run_seq(ctx, &mut r);
+    }
+    r.assume("svm-lite faithfully replaces the validator (DESIGN §2.1); sequence search: alphabet of bound-straddling arguments, depth as reported");
     r
 }
 
 pub fn replay(case: &Value) -> Result<(), String> {
-    match super::c19_fn::replay_fn(case) {
-        Some(x) => x,
-        None => Err("bad case".into()),
+    if let Some(x) = super::c19_fn::replay_fn(case) {
+        return x;
     }
+    if let Some(x) = super::c19_seq::replay_seq(case) {
+        return x;
+    }
+    Err("bad case".into())
 }
